@@ -32,7 +32,7 @@ DISCARD_TABLE = {
     ("<Generic as Drop>::drop", "delete"): "Drop cannot report errors",
     ("sources::channel::channel", "make_ping"): "documented: channel() panics if the eventfd cannot be created (API returns no Result)",
     ("sources::channel::sync_channel", "make_ping"): "documented: sync_channel() panics if the eventfd cannot be created",
-    ("TimeoutFuture::from_deadline_inner", "insert_source"): "a Timer's register cannot fail (it only touches the wheel); frozen exception",
+    ("TimeoutFuture::*", "insert_source"): "a Timer's register cannot fail (it only touches the wheel); frozen exception for the constructors of TimeoutFuture (whichever private helper they share)",
 }
 
 
@@ -95,7 +95,10 @@ def run(ck):
     an = ck.body("2", "Async::new")
     regs = [cs for cs in an.calls() if cs.name == "register" and ((cs.trait or "").endswith("IoLoopInner") or (cs.f.get("impl_trait") or "").endswith("IoLoopInner") or (cs.resolved and "IoLoopInner" in cs.resolved["path"]))]
     snb = T.calls(an, name="set_nonblocking")
-    first_snb = [cs for cs in snb if any(v == ("const", "true") for v in T.agg_variant(an, cs.args[1]))]
+    from props import common as _cm2
+
+    on_val = _cm2.nonblocking_on_value(ck.facts) or ("const", 1)
+    first_snb = [cs for cs in snb if _cm2.payload_value(an, cs.args[1]) == on_val]
     ck.floor("2", "Async::new: IoLoopInner::register and set_nonblocking(true)", len(regs) + len(first_snb), 2)
     for r in regs:
         ok_e, err_e, direct = T.result_split(an, r.bb)
@@ -206,6 +209,8 @@ def run(ck):
             if not (swallowed or panics):
                 continue
             key = (body.qual, cs.name)
+            if key not in DISCARD_TABLE and (key[0].rsplit("::", 1)[0] + "::*", key[1]) in DISCARD_TABLE:
+                key = (key[0].rsplit("::", 1)[0] + "::*", key[1])
             if key in DISCARD_TABLE:
                 ck.ok("6", "T12-error-discipline", body, "discard:%s" % cs.name, "listed deliberate %s: %s" % ("discard" if swallowed else "unwrap", DISCARD_TABLE[key]), site=body.where(cs.bb), nontrivial=True)
             else:
